@@ -739,13 +739,12 @@ func (s *ResettableKeystore) ResetCids(ctx context.Context, keysChan <-chan cid.
 	case <-s.done:
 		return ErrClosed
 	case s.resetOps <- resetOp{ctx: ctx, op: opStart, response: opsChan}:
-		select {
-		case err := <-opsChan:
-			if err != nil {
-				return err
-			}
-		case <-ctx.Done():
-			return ctx.Err()
+		// Always wait for the worker's answer: it is sent on an unbuffered
+		// channel, and a successful opStart must be paired with the opCleanup
+		// registered below. Returning on ctx.Done() here would leave the
+		// worker blocked forever (or the reset marked in progress forever).
+		if err := <-opsChan; err != nil {
+			return err
 		}
 	}
 
